@@ -9,6 +9,8 @@ mod c06;
 mod c08;
 #[cfg(ragc_verif_sched)]
 mod c06w;
+#[cfg(ragc_verif_sched)]
+mod c08w;
 mod c09;
 mod c10;
 mod c11;
@@ -55,6 +57,8 @@ fn main() {
         "c15-child" => c15::child(&args[2], &args[3], args[4].parse().unwrap_or(1), args[5].parse().unwrap_or(2), args[6] == "1"),
         #[cfg(ragc_verif_sched)]
         "c06-wake" => c06w::run(),
+        #[cfg(ragc_verif_sched)]
+        "c08-clones" => c08w::run(),
         #[cfg(ragc_verif_sched)]
         "c04-sched" => c04::run("C04"),
         #[cfg(ragc_verif_sched)]
